@@ -9,6 +9,7 @@ mod ctx;
 /// Whether wac-resolver is built with its `wat` feature in this crate (C18 lanes).
 pub const WAT_ENABLED: bool = true;
 mod decode;
+mod fixtures;
 mod props;
 mod util;
 mod wacgen;
@@ -42,6 +43,7 @@ fn main() {
         "C06" => props::c06::run(&mut ctx),
         "C10" => props::c10::run(&mut ctx),
         "C12" => props::c12::run(&mut ctx),
+        "C16" => props::c16::run(&mut ctx),
         "C18" => props::c18::run(&mut ctx),
         "C13" => props::c13::run(&mut ctx),
         "C15" => props::c15::run(&mut ctx),
@@ -105,6 +107,11 @@ fn main() {
             if std::env::var("DUMP_COMPS").is_ok() {
                 println!("{}", wasmprinter::print_bytes(&bytes).unwrap());
             }
+        }
+        "debug-c16" => {
+            let case = ctx.only_case.expect("--case");
+            let mut rng = ctx.rng_for("C16", case);
+            props::c16::debug_composition(&mut rng);
         }
         "debug-parse" => {
             // worker debug-parse --replay-input file.json  (json string = source text)
